@@ -1163,6 +1163,22 @@ func (e *rpcEnv) flush() string {
 			rest = append(rest, s)
 		}
 	}
+	// a Return for a call cancelled by the connection's own shutdown races the abort: it may or may not get out
+	aborting := false
+	for _, w := range wire {
+		if w == ">Abort" {
+			aborting = true
+		}
+	}
+	if aborting {
+		kept := wire[:0]
+		for _, w := range wire {
+			if !(strings.HasPrefix(w, ">Ret(") && strings.HasSuffix(w, ",exc)")) {
+				kept = append(kept, w)
+			}
+		}
+		wire = kept
+	}
 	sort.Strings(wire)
 	sort.Strings(rest)
 	return strings.Join(append(append(append(wire, deliv...), rest...), e.tables()), " ")
@@ -1610,6 +1626,9 @@ func rpcOracles(trace string) []string {
 				}
 			}
 		}
+		if strings.HasPrefix(op, "pHnullptr:") {
+			outstandingAns[0]++ // a null Bootstrap / Call is the default value: question id 0
+		}
 		if strings.HasPrefix(op, "pHcorrupt:") {
 			g := strings.SplitN(op, ":", 4)
 			if len(g) == 4 && (strings.HasPrefix(g[3], "pC") || strings.HasPrefix(g[3], "pB")) {
@@ -1747,7 +1766,7 @@ func rpcOracles(trace string) []string {
 			case strings.HasPrefix(ev, ">Rel("):
 				var id, n int
 				fmt.Sscanf(ev, ">Rel(%d,%d)", &id, &n)
-				if n != impRefs[id] && !uncertain[id] {
+				if n != impRefs[id] && !uncertain[id] && !dirty {
 					note(fmt.Sprintf("!release-%d-count-%d-want-%d", id, n, impRefs[id]))
 				}
 				impRefs[id] = 0
